@@ -1542,7 +1542,7 @@ class Dosini(object):
                     cfg.set(name, key, str(entry[key]))
 
             if 'stages' in entry:
-                stage_strings= ['stage%d' % idx for idx in entry['stages']]
+                stage_strings= ['stage%d' % FlowIR.stage_identifier_to_stage_index(idx) for idx in entry['stages']]
                 cfg.set(name, 'stages', ','.join(stage_strings))
         if output or force_generate:
             with open(os.path.join(output_dir, 'output.conf'), 'w') as f:
